@@ -35,7 +35,58 @@ let handle_xread words =
     String.concat " " ("ok" :: Stdlib.List.map (fun t -> hex_of_bytes t ^ ":1") l)
   | _ -> "badcase"
 
-let handlers : (string * (string list -> string)) list ref = ref [ ("xread", handle_xread) ]
+(* ---- binary numbers ---- *)
+let rec pos_of_int n = if n = 1 then BinNums.Coq_xH
+  else if n land 1 = 0 then BinNums.Coq_xO (pos_of_int (n lsr 1)) else BinNums.Coq_xI (pos_of_int (n lsr 1))
+let n_of_int n = if n = 0 then BinNums.N0 else BinNums.Npos (pos_of_int n)
+let rec int_of_pos = function BinNums.Coq_xH -> 1 | BinNums.Coq_xO p -> 2 * int_of_pos p | BinNums.Coq_xI p -> 2 * int_of_pos p + 1
+let int_of_n = function BinNums.N0 -> 0 | BinNums.Npos p -> int_of_pos p
+let list_of s = if s = "~" then [] else split_on ',' s
+let opt_n s = if s = "-" then None else Some (n_of_int (int_of_string s))
+
+(* xargs n L s x r argmax env(k:v,..) initlens replace args(len:kind,..) input_err outcomes *)
+let handle_xargs words =
+  match words with
+  | [n; l; s; x; r; argmax; env; init; repl; args; ierr; outs] ->
+    let env = Stdlib.List.map (fun kv -> match split_on ':' kv with
+        | [k; v] -> (n_of_int (int_of_string k), n_of_int (int_of_string v)) | _ -> failwith "env") (list_of env) in
+    let c = { XArgs.c_n = opt_n n; c_L = opt_n l; c_s = opt_n s; c_x = (x = "1"); c_r = (r = "1");
+              c_sys = XArgs.sys_budget (n_of_int (int_of_string argmax)) env;
+              c_init = Stdlib.List.map (fun v -> n_of_int (int_of_string v)) (list_of init);
+              c_replace = (repl = "1") } in
+    let args = Stdlib.List.mapi (fun i a -> match split_on ':' a with
+        | [len; k] -> { XArgs.aid = n_of_int i; alen = n_of_int (int_of_string len);
+                        akind = (if k = "h" then XArgs.Hard else XArgs.Soft) }
+        | _ -> failwith "arg") (list_of args) in
+    let outs = Stdlib.List.map (fun o ->
+        if o = "nf" then XArgs.NotFound else if o = "cr" then XArgs.CannotRun
+        else if o.[0] = 's' then XArgs.Signal
+        else XArgs.Exit (n_of_int (int_of_string (String.sub o 1 (String.length o - 1))))) (list_of outs) in
+    let (code, bs) = XArgs.xargs_run c args (ierr = "1") outs in
+    let show b = if b = [] then "~" else String.concat "," (Stdlib.List.map (fun a -> string_of_int (int_of_n a.XArgs.aid)) b) in
+    String.concat " " (string_of_int (int_of_n code) :: Stdlib.List.map show bs)
+  | _ -> "badcase"
+
+(* xrepl R line cmd(hex list) -> argv hex list *)
+let handle_xrepl words =
+  match words with
+  | [r; line; cmd] ->
+    let argv = XReplace.replace_argv (bytes_of_hex r) (bytes_of_hex line) (Stdlib.List.map bytes_of_hex (list_of cmd)) in
+    String.concat "," (Stdlib.List.map hex_of_bytes argv)
+  | _ -> "badcase"
+
+(* xnorm n L repl i_n i_l i_r -> effective n L repl *)
+let handle_xnorm words =
+  match words with
+  | [n; l; r; i_n; i_l; i_r] ->
+    let oi s = if s = "-" then None else Some (nat_of_int (int_of_string s)) in
+    let ((n', l'), r') = XReplace.normalize (opt_n n) (opt_n l) (r = "1") (oi i_n) (oi i_l) (oi i_r) in
+    let sh = function None -> "-" | Some v -> string_of_int (int_of_n v) in
+    Printf.sprintf "%s %s %d" (sh n') (sh l') (if r' then 1 else 0)
+  | _ -> "badcase"
+
+let handlers : (string * (string list -> string)) list ref =
+  ref [ ("xread", handle_xread); ("xargs", handle_xargs); ("xrepl", handle_xrepl); ("xnorm", handle_xnorm) ]
 
 let () =
   try while true do
